@@ -50,14 +50,6 @@ USER_CB = ("up_create_unit", "lg_create_unit", "up_init", "us_init")      # allo
 UNIT_MAP = ("unit_map_thread", "ABTI_unit_map_thread", "ABTI_thread_init_pool", "ABTI_thread_set_associated_pool",
             "ABTI_unit_set_associated_pool")   # the map malloc is inlined into these
 MAX_VIOLATIONS = 12
-# genuine defects of the unchanged tree that the generated scenarios exposed and that were reported to the lead but are
-# not (yet) listed in KNOWN_FINDINGS.json; treated like an open finding (KNOWN-FINDING line, recorded in the evidence)
-REPORTED = [
-    {"id": "C18-C", "signature": "C18:as.pushn.*",
-     "what": "ABT_pool_push_threads(user-defined pool, {t1,t2}): when the association of t2 fails, t1 stays re-associated "
-             "with the target pool (new unit + map entry live, old user unit freed) and is pushed nowhere "
-             "(pool_push_threads_ex, FIXME in the source)"},
-]
 REL_NAME = {"heap": "free", "map": "munmap", "thread": "pthread_join", "mutex": "pthread_mutex_destroy",
             "cond": "pthread_cond_destroy", "barrier": "pthread_barrier_destroy"}
 TIE_FUEL, TIE_BOUND = 900, 3
@@ -151,7 +143,7 @@ def classify_failsites(exe, runs):
                 continue
             st = [name.get(a, "?") for a in fs]
             r["stack"] = st
-            inner = st[1:5]     # st[0] is the wrapper itself
+            inner = st[2:6]     # st[0:2] are the injector's gate and the __wrap_ function
             if any(f in USER_CB for f in inner[:2]):
                 r["where"] = "user-callback"
             elif len(inner) > 1 and inner[0] in ("ABTU_malloc", "ABTU_memalign") and inner[1] in UNIT_MAP:
@@ -161,7 +153,7 @@ def classify_failsites(exe, runs):
             if r.get("outcome") == "absorbed" and not any(f in ABSORBING for f in st):
                 r["absorbed_unexpected"] = True
                 r.setdefault("problems", []).append("absorbed-unexpected: acquisition %d failed inside %s and the call "
-                                                    "returned success" % (r.get("k", 0), " <- ".join(st[1:4])))
+                                                    "returned success" % (r.get("k", 0), " <- ".join(st[2:5])))
 
 
 def enumerate_all(exe, scens, trace=False):
@@ -365,10 +357,17 @@ def broken_routines(b):
 
 
 def report(res, exe, sn, r, sym, known):
+    """one failing (scenario, k): KNOWN-FINDING if an open entry of KNOWN_FINDINGS.json matches its signature,
+    otherwise a VIOLATION with the replay (at most MAX_VIOLATIONS files; the rest is counted in the evidence)"""
     sig = "C18:%s:k=%d:%s" % (sn, r.get("k", 0), sym[0])
-    for f in known + REPORTED:
-        if f.get("signature") == sig or fnmatch.fnmatchcase(sig, f.get("signature", "") + "*"):
-            res.known_finding("%s %s (%s)" % (f.get("id", "?"), sig, f.get("what", "")[:160]))
+    for f in known:
+        # `signature` of an open finding is an fnmatch pattern over "C18:<scenario>:k=<k>:<first symptom>"
+        pat = f.get("signature", "")
+        if pat == sig or fnmatch.fnmatchcase(sig, pat) or fnmatch.fnmatchcase(sig, pat + ":*"):
+            hits = report.known_hits.setdefault(f.get("id", "?"), [])
+            if not hits:
+                res.known_finding("%s %s" % (f.get("id", "?"), f.get("what", "")))     # once per entry
+            hits.append(sig)
             return "known"
     rep = {"scenario": sn, "k": r.get("k", 0), "signature": sig, "symptoms": sym, "problems": r.get("problems"),
            "outcome": r.get("outcome", r.get("crash")), "rc": r.get("rc"), "phase": r.get("phase"),
@@ -391,7 +390,12 @@ def run(res, tier, broken):
     # tiers differ in how much of it is traced for the sequence tie
     scens = allsc
     runs = enumerate_all(exe, scens)
+    classify_failsites(exe, runs)
     known = C.open_findings("C18")
+    report.known_hits = {}
+    flags = {s[0]: s[1] for s in allsc}
+    where = collections.Counter()
+    reach = collections.defaultdict(set)
     hist = collections.Counter()
     kinds = collections.Counter()
     perscen = {}
@@ -411,11 +415,23 @@ def run(res, tier, broken):
                 kinds[m.group(1)] += 1
             for n in r.get("notes", []):
                 hist["note:" + n.split(":")[0]] += 1
+            if r.get("where"):
+                where[r["where"]] += 1
+                reach[sn].add(r["where"])
             sym = symptoms_of(r)
             if sym:
                 bad.append((sn, r, sym))
-    for sn, r, sym in bad:
-        report(res, exe, sn, r, sym, known)
+    verdicts = collections.Counter(report(res, exe, sn, r, sym, known) for sn, r, sym in bad)
+    badscen = {sn for sn, _, _ in bad}
+    # scenarios whose call creates a unit of a user-defined pool must have reached BOTH the user callback's own
+    # allocation and the runtime's unit-map allocation (otherwise the enumeration silently lost the branch it is there for)
+    unreached = sorted(sn for sn, fl in flags.items() if fl & F_UMAP and sn not in badscen and
+                       not {"user-callback", "unit-map"} <= reach[sn])
+    if unreached:
+        res.violation("scenario(s) over a user-defined pool no longer reach the user callback's allocation and the unit-map "
+                      "allocation: %s" % ", ".join(unreached[:6]),
+                      {"correspondence": "harness/fi_scen.c F_UMAP scenarios vs failing sites", "scenarios": unreached,
+                       "reached": {sn: sorted(reach[sn]) for sn in unreached}}, no_input=True)
     rng = C.Rng(res.seed * 1009 + 18)
     flat = [(sn, r) for sn, rs in sorted(runs.items()) for r in rs if r.get("k", 0) > 0 and "crash" not in r]
     for _ in range(3):
@@ -423,12 +439,19 @@ def run(res, tier, broken):
             sn, r = rng.choice(flat)
             res.sample({"scenario": sn, "k": r["k"], "N": perscen[sn], "outcome": r["outcome"], "rc": r["rc"],
                         "retry_rc": r["retry"], "events": r["events"][:300],
-                        "failed_in": symbolize(exe, r.get("failsite", [])[1:4])})
+                        "failed_in": r.get("stack", [])[2:5], "where": r.get("where")})
     res.add_cov(evaluations=evaluations, distinct_nontrivial=len(sites), exhaustive=True,
                 rule="every scenario x every k in 1..N (N = acquisitions counted in an unarmed run of the same scenario); "
                      "distinct = distinct (scenario, three innermost return addresses of the failing acquisition)",
-                scenarios=len(scens), acquisitions_per_scenario=perscen, outcomes=dict(hist),
-                failed_primitive_kinds=dict(kinds), violations_found=len(bad))
+                scenarios=len(scens), scenarios_handwritten=sum(1 for s in scens if "." not in s[0]),
+                scenarios_generated={f: sum(1 for s in scens if s[0].startswith(f + ".")) for f in ("mk", "as", "ms", "ps", "sc", "xc")},
+                acquisitions_per_scenario=perscen, outcomes=dict(hist),
+                failed_primitive_kinds=dict(kinds), failed_in=dict(where),
+                user_pool_scenarios=sum(1 for fl in flags.values() if fl & F_UMAP),
+                user_pool_scenarios_reaching_both_sites=sum(1 for sn, fl in flags.items() if fl & F_UMAP and
+                                                            {"user-callback", "unit-map"} <= reach[sn]),
+                violations_found=verdicts.get("violation", 0) + verdicts.get("capped", 0),
+                failing_runs_matching_open_findings={k: sorted(v) for k, v in report.known_hits.items()})
     # sequence tie (model <-> code)
     routines, paths, ok, out, audit = lean_side(broken)
     exe_i = build("finstr")
